@@ -222,7 +222,7 @@ REGISTRY.add(Contract(
         "implies(zone_ok and has(mems, b'Active(file):') and has(mems, b'Inactive(file):') and has(mems, b'SReclaimable:'),"
         " result == estimate(mems, W))",
     ],
-    canaries=["result == mems[b'MemFree:']"],
+    canaries=["result == mems[b'MemFree:']"], replay="c08:avail",
     returns=lambda it, env: _est(it), role="helper",
     callee_ensures=[],   # callers only need: the result is *the* fallback estimate (ghost 'est')
     note="documented fallback estimate of available memory (kernel commit 34e431b0ae39), (free+cached) when "
@@ -238,6 +238,7 @@ def setup_vm(it, cfg):
     it.env_over.update(proc_file_env({"/meminfo": file_of(L)}))
     it.env_over.update(warn_env())
     vals = model_names(it, M, MEMKEYS)
+    _est(it)        # the fallback estimate is a function of the inputs: it exists whether or not the code asks for it
     return {"args": {}, "spec": {"M": M, "P": EnvFunc("P", lambda it2, x: P(x)), "Vv": EnvFunc("Vv", lambda it2, x: Vv(x))},
             "values": vals}
 
